@@ -402,4 +402,5 @@ pub fn run(eng: &mut Engine) {
             check,
         );
     }
+    eng.fuzz_part_from_env("fuzz_c05");
 }
